@@ -2,7 +2,7 @@
    pairs the server's event with the mechanism as it behaves at that step (any method
    name, any encode function, different at every step if it likes); the per-event theorem
    feed_step holds for each of them, and the history theorems follow as before. *)
-Require Import Bytes Utf8 Base64 Sasl SaslSpec FormatLemmas SaslProofs SaslFailClosed.
+Require Import Bytes Utf8 Base64 CapLib StsState Sasl SaslSpec FormatLemmas SaslProofs SaslFailClosed.
 From Coq Require Import Lia.
 
 Definition step_in_alphabet (x : sasl_mech * event) : Prop := in_alphabet (snd x).
@@ -166,7 +166,7 @@ End Stateful.
 Example stateful_example :
   let m1 := mkMech (bs "X") (fun _ => bs "cmVzcA==") in
   let m2 := mkMech (bs "X") (fun _ => []) in
-  match run_stateful ex_cfg (mkConn (mkNs false true) None)
+  match run_stateful ex_cfg (mkConn (Cap.mkSt [] [(c_sasl, None)] sts_init) None)
           [(m1, ex_plus); (m2, srv c_AUTHENTICATE [bs "Y2hhbGxlbmdl"]); (m2, ex_num n903)] with
   | Ok (cn, outs) =>
       cn_returned cn = Some (bs "closing connection: SASL X failed: Y2hhbGxlbmdl") /\
